@@ -8,6 +8,7 @@ oracle:          lib/irsem.py — executes the pre-SSA CFG under Circom's field
                  semantics and checks every claim met along the execution."""
 import os
 import random
+import re
 import common
 import irsem
 import proggen
@@ -77,13 +78,19 @@ def run_lines_isolating(binary, lines, timeout=1200):
     return [o for part in parts for o in part]
 
 
+def wire(src):
+    """The source field of a harness line: a single definition, or (marker /*file*/) a whole source text that goes
+    through the real desugarer before its first definition is lifted."""
+    return ("file:" if src.lstrip().startswith("/*file*/") else "") + src.encode().hex()
+
+
 def lift_all(H, progs, budgets):
     """Runs the implementation on every (program, budget). Returns dict
     (i, kv, kd) -> parsed result."""
     lines, keys = [], []
     for i, (curve, src, _) in enumerate(progs):
         for kv, kd in budgets:
-            lines.append("%s %s %s %s" % (curve, kv, kd, src.encode().hex()))
+            lines.append("%s %s %s %s" % (curve, kv, kd, wire(src)))
             keys.append((i, kv, kd))
     outs = run_lines_isolating(H, lines, timeout=1200)
     return {k: o for k, o in zip(keys, outs)}
@@ -91,7 +98,9 @@ def lift_all(H, progs, budgets):
 
 def model_all(M, progs, impl, budgets):
     lines, keys = [], []
-    for i, (curve, src, _) in enumerate(progs):
+    for i, (curve, src, origin) in enumerate(progs):
+        if origin == "long-chain":      # thousands of passes over association lists: the mirror is not run on it (oracle and validators are)
+            continue
         for kv, kd in budgets:
             o = impl[(i, kv, kd)]
             if not o.startswith("(ok "):
@@ -172,6 +181,16 @@ FEATURES = {
     "dimension_reads_versioned_local": "a dimension that reads a local variable (which SSA conversion must give a version)",
     "signal_declared_under_control_flow": "a signal declared in a block other than the entry block (under a branch or in a loop)",
     "dimension_with_value_claim_on_a_non_literal": "a dimension expression (not a literal) that carries a constant-value claim",
+    "anonymous_component_array": "a component of type AnonymousComponent (an anonymous component inside a loop, after the real desugarer has run)",
+    "desugared_anonymous_component_or_tuple": "a definition that went through the real remove_syntactic_sugar with an anonymous component or a tuple in it",
+    "element_write_into_a_two_dimensional_array": "an element-wise update with two or more indices (`m[i][j] = e`)",
+    "literal_not_smaller_than_the_prime": "a numeral >= p",
+    "literal_with_as_many_bits_as_the_prime_not_reduced": "a numeral in [p, 2^nbits)",
+    "hexadecimal_literal": "a numeral spelled 0x..",
+    "field_valued_condition": "an if / while condition that is not a comparison or a Boolean connective: a numeral, a variable, a difference, a ternary, a call",
+    "condition_is_a_variable": "an if / while condition that is a plain variable (a Boolean or a field element held in it)",
+    "return_under_control_flow": "a `return` in a block that is not on every path from the entry",
+    "parameter_assigned": "an assignment to a parameter",
     "redeclared_local_with_lookalike_name": "two different variables (name, suffix) whose PRINTED names coincide: a re-declared local `x` (internal suffix k, printed `x_k`) "
                                             "next to a variable whose source name is `x_k`",
     "lookalike_pair_one_constant_one_not": "such a pair where, at an equal SSA version, one variable is assigned a claimed constant and the other is assigned without one",
@@ -185,10 +204,47 @@ def _walk(x, f):
             _walk(y, f)
 
 
-def features_of(pre, acc, ssa=None):
+# features the random grammar itself (origin "random") must produce in every run with at least 150 random programs
+GRAMMAR_FEATURES = ["component_declaration", "port_read", "dimension_reads_variable", "literal_not_smaller_than_the_prime",
+                    "literal_with_as_many_bits_as_the_prime_not_reduced", "hexadecimal_literal", "field_valued_condition", "parameter_assigned"]
+
+GRAMMAR_FEATURES_RARE = ["element_write_into_a_two_dimensional_array", "condition_is_a_variable", "return_under_control_flow", "signal_declared_under_control_flow", "port_write"]
+
+BOOLEAN_OPS = ("lt", "le", "gt", "ge", "eq", "neq", "and", "or")
+
+
+def conditional_blocks(pre):
+    """Blocks that are not on every path from the entry to an exit (an exit is still reachable when the block is removed)."""
+    blocks = pre[4][1:]
+    succ = {int(b[1]): [int(x) for x in b[5]] for b in blocks}
+    exits = [i for i, ss in succ.items() if not ss]
+    out = set()
+    for b in succ:
+        if b == 0:
+            continue
+        seen_, work = {0}, [0]
+        while work:
+            u = work.pop()
+            for w in succ.get(u, []):
+                if w != b and w not in seen_:
+                    seen_.add(w)
+                    work.append(w)
+        if any(e in seen_ for e in exits if e != b) or not exits:
+            out.add(b)
+    return out
+
+
+def features_of(pre, acc, ssa=None, p=None, src=None):
     """Counts, on the implementation's dump of one lifted definition, the program features named in the `rule` text
     (one count per definition that has the feature)."""
     seen = set()
+    cond_blocks = conditional_blocks(pre)
+    params = set((q[1], q[2]) for q in pre[2][1:])
+    if src is not None:
+        if "0x" in src:
+            seen.add("hexadecimal_literal")
+        if src.lstrip().startswith("/*file*/") and ("()(" in src.split("}", 1)[0] + src or "_," in src):
+            seen.add("desugared_anonymous_component_or_tuple")
     for b in pre[4][1:]:
         for st in b[3]:
             if st[0] == "decl":
@@ -196,9 +252,36 @@ def features_of(pre, acc, ssa=None):
                     seen.add("component_declaration")
                     if st[4]:
                         seen.add("component_array")
-                if st[3] in ("sigin", "sigout", "sigint") and int(b[1]) > 0:
+                    if st[3] == "anoncomponent":
+                        seen.add("anonymous_component_array")
+                if st[3] in ("sigin", "sigout", "sigint") and int(b[1]) in cond_blocks:
                     seen.add("signal_declared_under_control_flow")
+            if st[0] == "ret" and int(b[1]) in cond_blocks:
+                seen.add("return_under_control_flow")
+            if st[0] == "subst" and (st[2][1], st[2][2]) in params:
+                seen.add("parameter_assigned")
+            if st[0] == "if":
+                c = st[2]
+                if not ((c[0] == "infix" and c[1] in BOOLEAN_OPS) or (c[0] == "prefix" and c[1] == "not")):
+                    seen.add("field_valued_condition")
+                if c[0] == "var":
+                    seen.add("condition_is_a_variable")
 
+            def lits(y):
+                if y and y[0] == "update" and sum(1 for a in y[2] if a[0] == "idx") >= 2:
+                    seen.add("element_write_into_a_two_dimensional_array")
+                if y and y[0] == "num" and p is not None and isinstance(y[1], str):
+                    try:
+                        v = int(y[1], 16)
+                    except ValueError:
+                        return
+                    if v >= p:
+                        seen.add("literal_not_smaller_than_the_prime")
+                        if v < (1 << p.bit_length()):
+                            seen.add("literal_with_as_many_bits_as_the_prime_not_reduced")
+            _walk(st, lits)
+
+            if st[0] == "decl":
                 def dimvar(y):
                     if y and y[0] == "var":
                         seen.add("dimension_reads_variable")
@@ -311,8 +394,12 @@ def oracle_case(ctx, orng, x, src, curve, kv, kd, check_vals, check_degs):
     exercised_v = exercised_d = 0
     p = proggen.PRIMES[curve]
     vals, names, sigs, params = valuations(orng, x[1], p, 6 if ctx.tier == "quick" else 12)
+    nst = sum(len(b[3]) for b in x[1][4][1:])
+    steps = 400 if nst <= 130 else 3 * nst       # a very long definition is executed to its end (not cut after 400 statements)
+    if nst > 130:
+        vals = vals[:2]
     if check_vals:
-        bad, ex = irsem.check_values(x[1], x[2], p, vals, stats=VALSTATS)
+        bad, ex = irsem.check_values(x[1], x[2], p, vals, max_steps=steps, stats=VALSTATS)
         exercised_v += ex
         for (vi, pos, nvis, val, cv) in bad[:1]:
             failing.append({"input": src, "curve": curve, "budget": [kv, kd], "classes": sorted(irsem.node_class(x[2], pos)), "valuation": {"%s:%s" % (a, sexp.unhex(b)): c for (a, b), c in vals[vi].items()},
@@ -323,11 +410,29 @@ def oracle_case(ctx, orng, x, src, curve, kv, kd, check_vals, check_degs):
         idoms = [None if d == "-" else int(d) for d in x[3][1:]] if len(x) > 3 else None
         audit = AUDIT
         if ind:
-            ntr = 5 if ctx.tier == "quick" else 8
-            for trial in range(ntr):
-                if trial == 0:      # the line 0, 1, 2, 3, 4 (small values reach array indices)
+            ntr = (5 if ctx.tier == "quick" else 8) if nst <= 130 else 1
+            # the indeterminates a loop condition depends on: on extra lines they are held fixed (direction 0, small base
+            # values so that the loops do iterate) while the others move, so that all runs share the trip counts and
+            # every iteration of such a loop is judged on all points (fourth audit: with five points and trip count = t
+            # a claim <= quadratic was judged in iteration 0 only)
+            lc = irsem.loop_control_names(x[1])
+            lc_ind = [nm for nm in ind if any(nm[1] == h for (h, sfx) in lc)]
+            extra = 2 if (lc_ind and len(lc_ind) <= len(ind)) else 0
+            npts = 5
+            for trial in range(ntr + extra):
+                npts = 5
+                if trial >= ntr:    # loop-bounding indeterminates fixed at 2, 3; the others run through small / random values
+                    kfix = 2 + (trial - ntr)
+                    base = {nm: (kfix if nm in lc_ind else 0) for nm in names}
+                    direction = {nm: (0 if nm in lc_ind else (1 if trial == ntr else orng.randrange(1, p))) for nm in ind}
+                    direction["__loopfixed__"] = True
+                    direction["__frozen__"] = tuple(nm[1] for nm in lc_ind)
+                    npts = 9 if trial == ntr else 5
+                elif trial == 0:      # the line 0, 1, ..., 8 (small values reach array indices; nine points: a claim <= quadratic
+                    #                   inside a loop bounded by a signal is judged in iterations 0..4, not only in iteration 0)
                     base = {nm: 0 for nm in names}
                     direction = {nm: 1 for nm in ind}
+                    npts = 9
                 elif trial in (1, 2):
                     # small lines: the indeterminates run through 0..4 (so `signal == small literal` flips along the
                     # line) while the other names (template parameters) take small values (so `n == 3` holds sometimes)
@@ -336,7 +441,7 @@ def oracle_case(ctx, orng, x, src, curve, kv, kd, check_vals, check_degs):
                 else:
                     base = orng.choice(vals)
                     direction = {nm: orng.randrange(1, p) for nm in ind}
-                bad, ex, diverged = irsem.check_degrees(x[1], x[2], p, base, direction, ind, idoms=idoms, audit=audit, stats=DEGSTATS)
+                bad, ex, diverged = irsem.check_degrees(x[1], x[2], p, base, direction, ind, max_steps=steps, idoms=idoms, audit=audit, stats=DEGSTATS, npoints=npts)
                 exercised_d += ex
                 for (k, cd, vs) in bad[:1]:
                     cls = irsem.node_class(x[2], k[0])
@@ -358,6 +463,76 @@ def oracle_case(ctx, orng, x, src, curve, kv, kd, check_vals, check_degs):
                         "spec": "Spec.DegSem.decides: the deciding conditions %s had the same truth values in both runs, so the edge must be the same "
                                 "(the control-dependence rule of the degree semantics does not cover this graph)" % (list(truths),)})
     return failing, exercised_v, exercised_d
+
+
+def constraint_form(e):
+    """Circom's algebra of constraint expressions, read syntactically: "c" constant, "l" linear, "q" ONE product of two
+    linear expressions plus a linear expression, "n" anything else (leaves by their degree claim)."""
+    k = e[-1] if isinstance(e[-1], list) and e[-1] and e[-1][0] == "k" else None
+    if k is not None and k[2] != "-" and k[2][2] == "c":
+        return "c"
+    t = e[0]
+    if t == "num":
+        return "c"
+    if t in ("var", "access"):
+        if k is None or k[2] == "-":
+            return "n"
+        return {"c": "c", "l": "l", "q": "q"}.get(k[2][2], "n")
+    if t == "infix":
+        a, b = constraint_form(e[2]), constraint_form(e[3])
+        if e[1] in ("add", "sub"):
+            if "n" in (a, b) or (a == "q" and b == "q"):
+                return "n"
+            return max(a, b, key="clq".index)
+        if e[1] == "mul":
+            if a == "c":
+                return b
+            if b == "c":
+                return a
+            return "q" if (a == "l" and b == "l") else "n"
+        if e[1] == "div":
+            return a if b == "c" else "n"
+        return "c" if (a == "c" and b == "c") else "n"
+    if t == "prefix":
+        a = constraint_form(e[2])
+        return a if e[1] == "neg" else ("c" if a == "c" else "n")
+    return "n"
+
+
+def advice_case(x, src, curve, kv, kd):
+    """The consumers of partial facts, run by the harness on the graph as the budgets left it: a CS0013 report
+    (`the expression assigned is quadratic, rewrite with <==`) must stand on a `<--` statement whose right-hand side
+    carries a degree claim with upper end <= quadratic (a claim the validator and the oracle judge), and - the second
+    sentence of property C07 - the right-hand side must be of the form the Circom compiler accepts in a constraint."""
+    out = []
+    if len(x) <= 6:
+        return out, 0
+    adv = [a for a in x[6][1:] if a[0] == "CS0013"]
+    stm = {}
+    for b in x[2][4][1:]:
+        for st in b[3]:
+            if st[0] == "subst" and st[3] == "sig":
+                stm.setdefault((st[1][1], st[1][2]), []).append(st)
+    for a in adv:
+        sts = stm.get((a[1], a[2]), [])
+        if not sts:
+            out.append({"input": src, "curve": curve, "budget": [kv, kd], "kind": "advice", "classes": [],
+                        "impl": "CS0013 (unnecessary signal assignment) at offsets %s..%s" % (a[1], a[2]), "spec": "no `<--` statement stands there"})
+            continue
+        st = sts[0]
+        rhe = st[4]
+        know = rhe[-1]
+        inner = rhe[3] if rhe[0] == "update" else rhe
+        if know[2] == "-" or know[2][2] not in ("c", "l", "q"):
+            out.append({"input": src, "curve": curve, "budget": [kv, kd], "kind": "advice", "classes": [],
+                        "impl": "CS0013 says the expression assigned at offsets %s..%s is quadratic" % (a[1], a[2]),
+                        "spec": "the right-hand side carries the degree claim %s at this cut: no claim with upper end <= quadratic stands behind the advice" % sexp.show(know)})
+        elif constraint_form(inner) == "n":
+            out.append({"input": src, "curve": curve, "budget": [kv, kd], "kind": "advice", "classes": ["cs0013-sum-of-products"],
+                        "impl": "CS0013 advises to rewrite the `<--` at offsets %s..%s with `<==` (degree claim %s)" % (a[1], a[2], sexp.show(know[2])),
+                        "spec": "the right-hand side is not of the form A*B + C with A, B, C linear (one product only), which is all the Circom compiler "
+                                "accepts in a constraint (property C07, second sentence)"})
+    return out, len(adv)
 
 
 ESCALATION_SHAPES = [
@@ -395,12 +570,12 @@ def escalate(ctx, H, orng, disagreements, unjustified, check_vals, check_degs):
     return {"failing": failing, "cases": cases, "programs": len(progs), "budgets": len(budgets)}
 
 
-def run(ctx, proofs, budgets, check_vals=True, check_degs=True, n_quick=500, n_thorough=8000, props=("C06", "C07", "C20")):
+def run(ctx, proofs, budgets, check_vals=True, check_degs=True, n_quick=500, n_thorough=8000, props=("C06", "C07", "C20"), extra_progs=(), check_advice=False):
     H = common.build_harness("ir")
     M = common.build_model("ir")
     rng = ctx.rng
     n = n_quick if ctx.tier == "quick" else n_thorough
-    progs = programs(rng, n, props)
+    progs = programs(rng, n, props) + list(extra_progs)
     for k in ctx.known:     # the witness of every listed finding is replayed on every run
         if isinstance(k.get("witness"), str):
             progs.insert(0, ("BN254", k["witness"], "corpus/known-finding"))
@@ -423,17 +598,27 @@ def run(ctx, proofs, budgets, check_vals=True, check_degs=True, n_quick=500, n_t
             wl = ["djustle %s %s" % (sexp.show(sexp.parse(impl[k])[2]), sexp.show(sexp.parse(impl[k])[3])) for k in rej]
             for k, o in zip(rej, common.run_lines(M, [], wl, shards=common.NPROC, timeout=1200)):
                 weak[k] = o
+    # C14's validator on the implementation's SSA graph of every definition of THIS run (hypothesis `ssa_check c idom` of
+    # C06_phi_arguments_available; `infos_ok` of the degree theorems is a part of it)
+    sl, sk = [], []
+    for i, (curve, src, _) in enumerate(progs):
+        o = impl[(i, budgets[0][0], budgets[0][1])]
+        if o.startswith("(ok "):
+            x_ = sexp.parse(o)
+            sl.append("ssacheck %s %s" % (sexp.show(sexp.strip_knowledge(x_[2])), sexp.show(x_[3])))
+            sk.append(i)
+    ssa_bad = [{"input": progs[i][1], "curve": progs[i][0], "answer": o}
+               for i, o in zip(sk, common.run_lines(M, [], sl, shards=common.NPROC, timeout=1200) if sl else []) if o != "(valid)"]
     ccmodel = constcond_all(M, progs, impl, budgets) if check_vals else {}
     dgraph = deggraph_all(M, progs, impl, budgets) if check_degs else {}
     # answer: "(deg-graph-ok loop-free|loops) (loops-ok)" | "(deg-graph-ok ..) (loops-hyp <unmet conjunct>)" | "(<unmet graph hypothesis>)"
-    # `update-base-assigned` alone (DegLoops.update_bases_fresh false) is NOT a defect of the graph: as defined, that conjunct
-    # fails on every definition that updates one array element-wise twice (`u[0] = a; u[1] = 1;`: the base u.1 of the second
-    # update is assigned by the first); such graphs are counted as outside the loops theorem. Any other unmet conjunct is a violation.
+    # every unmet conjunct is a violation.  (`update-base-assigned`: DegLoops.update_bases_fresh infos c restricts only an update
+    # base that read_ok accepts WITHOUT a running version; a second element-wise update of the same array reads the running
+    # version and is not restricted - proof round 4 follow-up.)
     def _unmet(o):
         return o.split("(loops-hyp ", 1)[1].rstrip(")").split() if "(loops-hyp " in o else []
     dgraph_bad = [{"input": progs[i][1], "curve": progs[i][0], "answer": o} for i, o in dgraph.items()
-                  if not o.startswith("(deg-graph-ok") or (set(_unmet(o)) - {"update-base-assigned"})]
-    loops_outside = sum(1 for o in dgraph.values() if o.startswith("(deg-graph-ok") and _unmet(o) == ["update-base-assigned"])
+                  if not o.startswith("(deg-graph-ok") or _unmet(o)]
     loop_free = sum(1 for o in dgraph.values() if o.startswith("(deg-graph-ok loop-free)"))
     loops_thm = sum(1 for o in dgraph.values() if o.startswith("(deg-graph-ok") and o.endswith("(loops-ok)"))
     loops_thm_with_loops = sum(1 for o in dgraph.values() if o == "(deg-graph-ok loops) (loops-ok)")
@@ -474,7 +659,10 @@ def run(ctx, proofs, budgets, check_vals=True, check_degs=True, n_quick=500, n_t
     orng = random.Random(ctx.seed * 7919 + 13)
     DEGSTATS.clear()
     VALSTATS.clear()
+    not_mirrored = set()
     features = {}
+    features_random = {}
+    advice_seen = {"cases": 0, "CS0013": 0, "CS0010": 0}
     featured = set()
     for (i, kv, kd), o in impl.items():
         evaluations += 1
@@ -489,7 +677,9 @@ def run(ctx, proofs, budgets, check_vals=True, check_degs=True, n_quick=500, n_t
             continue
         m = model.get((i, kv, kd))
         x = sexp.parse(o)
-        if m is None or sexp.parse(m) != x[2]:
+        if origin == "long-chain":
+            not_mirrored.add(i)
+        elif m is None or sexp.parse(m) != x[2]:
             disagreements.append({"input": src, "curve": curve, "budget": [kv, kd],
                                   "model": (m or "")[:300], "impl": sexp.show(x[2])[:300]})
         if check_vals:
@@ -497,12 +687,22 @@ def run(ctx, proofs, budgets, check_vals=True, check_degs=True, n_quick=500, n_t
             real_cc = [sexp.show(y) for y in x[5][1:]] if len(x) > 5 else []
             want_cc = [sexp.show(y) for y in sexp.parse(ccmodel[(i, kv, kd)])[1:]]
             cc_seen["reports"] += len(real_cc)
+
+            def polarity(y):
+                """(block, statement, which truth value the label names): the wording of the label is not compared"""
+                q = sexp.parse(y)
+                t = sexp.unhex(q[2]) if q[2] != "-" else "-"
+                w = re.findall(r"\b(true|false)\b", t.lower())
+                return (q[0], q[1], w[-1] if w else t)
+            want_pol = [polarity(w) for w in want_cc]
             for y in real_cc:
                 txt = sexp.unhex(sexp.parse(y)[2]) if sexp.parse(y)[2] != "-" else "-"
-                cc_seen["always_true"] += txt.endswith("true.")
-                cc_seen["always_false"] += txt.endswith("false.")
-                if y in want_cc:
-                    want_cc.remove(y)
+                cc_seen["always_true"] += polarity(y)[2] == "true"
+                cc_seen["always_false"] += polarity(y)[2] == "false"
+                if polarity(y) in want_pol:
+                    k_ = want_pol.index(polarity(y))
+                    want_pol.pop(k_)
+                    want_cc.pop(k_)
                 else:
                     pos = sexp.parse(y)
                     failing.append({"input": src, "curve": curve, "budget": [kv, kd], "kind": "finding", "classes": [],
@@ -513,11 +713,19 @@ def run(ctx, proofs, budgets, check_vals=True, check_degs=True, n_quick=500, n_t
                 cc_seen["missing"] += len(want_cc)
                 cc_missing.append({"input": src, "curve": curve, "budget": [kv, kd], "model": want_cc[:3], "impl": real_cc[:3]})
         fa = {}
-        features_of(x[1], fa, x[2])         # per program: a feature counts once, at whichever budget it shows
+        features_of(x[1], fa, x[2], proggen.PRIMES[curve], src)         # per program: a feature counts once, at whichever budget it shows
         for f in fa:
             if (i, f) not in featured:
                 featured.add((i, f))
                 features[f] = features.get(f, 0) + 1
+                if origin == "random":
+                    features_random[f] = features_random.get(f, 0) + 1
+        if check_advice:
+            fa_, na_ = advice_case(x, src, curve, kv, kd)
+            failing += fa_
+            advice_seen["CS0013"] += na_
+            advice_seen["CS0010"] += sum(1 for a in x[6][1:] if a[0] == "CS0010") if len(x) > 6 else 0
+            advice_seen["cases"] += 1
         before = dict(claims)
         count_claims(x[2], claims)
         if claims["val"] - before["val"] > claims["literal"] - before["literal"] or claims["deg_le_quadratic"] > before["deg_le_quadratic"]:
@@ -533,11 +741,12 @@ def run(ctx, proofs, budgets, check_vals=True, check_degs=True, n_quick=500, n_t
         # at every pass budget 0..40 on the cases that disagree plus loop shapes whose claims need many passes
         escalated = escalate(ctx, H, orng, disagreements, unjustified, check_vals, check_degs)
         failing += escalated["failing"]
-    return {"weak": {"rejected_by_djust_cfg": len(weak), "of_these_accepted_by_djust_cfg_le": sum(1 for o in weak.values() if o == "(justified)")},
+    return {"not_mirrored": len(not_mirrored), "ssa": {"evaluated": len(sk), "rejected": len(ssa_bad)}, "ssa_bad": ssa_bad, "features_random": features_random, "random_programs": sum(1 for q in progs if q[2] == "random"),
+            "advice": advice_seen, "check_advice": check_advice,
+            "weak": {"rejected_by_djust_cfg": len(weak), "of_these_accepted_by_djust_cfg_le": sum(1 for o in weak.values() if o == "(justified)")},
             "valstats": dict(VALSTATS), "dgraph": {"evaluated": len(dgraph), "unmet": len(dgraph_bad), "graphs_covered_by_loop_free_theorem": loop_free,
-                                                   "graphs_covered_by_loops_theorem": loops_thm, "of_these_graphs_with_loops": loops_thm_with_loops,
-                                                   "unmet_conjuncts_of_the_loops_theorem": loops_unmet,
-                                                   "graphs_outside_the_loops_theorem_because_an_array_is_updated_element_wise_twice": loops_outside}, "dgraph_bad": dgraph_bad, "features": features, "degstats": dict(DEGSTATS), "check_degs": check_degs, "hyp": hyp, "hyp_bad": hyp_bad, "escalated": None if escalated is None else {k: v for k, v in escalated.items() if k != "failing"}, "cc_seen": cc_seen, "cc_missing": cc_missing, "disagreements": disagreements, "failing": failing, "unjustified": unjustified, "validated": len(valid),
+                                                   "graphs_meeting_the_graph_hypotheses_of_the_loops_theorem": loops_thm, "of_these_graphs_with_loops": loops_thm_with_loops,
+                                                   "unmet_conjuncts_of_the_loops_theorem": loops_unmet}, "dgraph_bad": dgraph_bad, "features": features, "degstats": dict(DEGSTATS), "check_degs": check_degs, "hyp": hyp, "hyp_bad": hyp_bad, "escalated": None if escalated is None else {k: v for k, v in escalated.items() if k != "failing"}, "cc_seen": cc_seen, "cc_missing": cc_missing, "disagreements": disagreements, "failing": failing, "unjustified": unjustified, "validated": len(valid),
             "dvalidated": sum(1 for o in dvalid.values() if o == "(justified)"), "darrays": sum(1 for k, o in dvalid.items() if o == "(justified)" and any(t in impl[k] for t in ("(access ", "(update ", "(array "))), "status": status, "claims": claims,
             "nontrivial": len(nontrivial), "evaluations": evaluations, "programs": len(progs),
             "exercised_value_claims": exercised_v, "exercised_degree_claims": exercised_d,
@@ -549,6 +758,8 @@ KF_TEXT = {
                            "takes the constant of its other arguments although the variable is 0 along that edge",
     "ctl-merge": "degree of a value merged at the join of a branch whose condition depends on signals ignores the control dependence",
     "array-degree": "degree analysis ignores array indices and forgets unknown elements on element-wise update",
+    "cs0013-sum-of-products": "CS0013 advises `<==` for a right-hand side of total degree <= 2 that is a sum of two or more products of non-constant factors, "
+                              "which the Circom compiler rejects in a constraint",
 }
 
 
@@ -574,7 +785,43 @@ def verdict(ctx, proofs, r, kinds, known_classes, extra_cov=None):
     shown = (shown + [f for f in real if f not in shown])[:5]
     for f in shown:
         ctx.violation("%s; %s" % (f["impl"], f["spec"]), f)
-    if not real:
+    # HYPOTHESES of the theorems, evaluated per graph: an unmet one is reported whatever else failed (fourth audit: they used
+    # to sit at the end of an elif chain and were masked by a rejected graph or a differing mirror)
+    if r.get("hyp_bad"):
+        ctx.violation("a graph handed to propagation does not meet the hypotheses of the budget / degree theorems (%s; %d cases)" % (r["hyp_bad"][0]["answer"], len(r["hyp_bad"])),
+                      {"broken": "hypotheses clean_cfg / ldefs_unique / deg_wf of C20_mirror_validated_at_every_budget, C20_propagate_completes and the degree theorems", "first": r["hyp_bad"][0]}, no_input=True)
+    if r.get("dgraph_bad"):
+        d = r["dgraph_bad"][0]
+        if "(loops-hyp " in d["answer"]:
+            w = [y for y in d["answer"].split("(loops-hyp ", 1)[1].rstrip(")").split()][0]
+            what = {"no-version-maps": "SsaCheck.compute_infos gives no version maps for the graph and the implementation's dominator table (a C14-type finding: the SSA validator "
+                                       "cannot even be run; reported here because the degree theorem for graphs with loops needs the maps)",
+                    "infos-not-ok": "SsaCheck.infos_ok fails on the version maps of the graph (a C14-type finding: the SSA graph is not valid; reported here because it is a "
+                                    "hypothesis of C07_loops_runs_represented)",
+                    "targets-not-versioned": "DegLoops.targets_versioned: a statement assigns a local without a version (a C14-type finding)",
+                    "update-base-assigned": "DegLoops.update_bases_fresh: an update base that is read without a running version (SsaCheck.read_ok through fresh_ok) is assigned by a statement",
+                    "future-version": "DegLoops.no_future_version: the version current at the exit of a block is one that a block with a larger index assigns (a C14-type finding: "
+                                      "the renaming does not follow the dominator tree / dominators do not have smaller indices; reported under %s because it is a hypothesis of "
+                                      "the degree theorem for graphs with loops)" % ctx.prop,
+                    "loops_ok-false": "DegLoops.loops_ok is false although its conjuncts hold one by one (driver and definition out of step)"}.get(w, w)
+            ctx.violation("a graph produced by the implementation does not meet a hypothesis of C07_loops_runs_represented / C07_loops_runs_claims_true (diverging runs in graphs "
+                          "with loops): %s (%d cases in all: %s)" % (what, len(r["dgraph_bad"]), r.get("dgraph", {}).get("unmet_conjuncts_of_the_loops_theorem")),
+                          {"broken": "hypothesis `%s` of C07_loops_runs_represented (SsaCheck.infos_ok / DegLoops.loops_ok)" % w, "first": d}, no_input=True)
+        else:
+            ctx.violation("a graph / immediate-dominator table produced by the implementation does not meet the hypotheses of the table-free degree theorems: %s (%d cases; "
+                          "`(graph-inconsistent)`: b_index is not the position or b_preds is not the inverse of b_succs or a block is unreachable - a matter of C12; "
+                          "`(idom-not-the-dominator-table)`: the table differs from the one Model.Dom computes - a matter of C15; `(local-assigned-twice)`: C14)" % (d["answer"], len(r["dgraph_bad"])),
+                          {"broken": "hypotheses DegGraph.graph_consistent / DegGraph.idom_is_dominator_table of C07_decides_is_dominance_control_dependence and "
+                                     "C07_validated_graph_degrees_true_table_free", "first": d}, no_input=True)
+    if r.get("ssa_bad"):
+        d = r["ssa_bad"][0]
+        ctx.violation("C14's validator answers %s on an SSA graph of this run (%d definitions): hypothesis `ssa_check c idom` of C06_phi_arguments_available and "
+                      "`infos_ok` of the degree theorems (a C14-type finding, reported under %s because it is a hypothesis here)" % (d["answer"], len(r["ssa_bad"]), ctx.prop),
+                      {"broken": "hypothesis SsaCheck.ssa_check on the graphs of this run", "first": d}, no_input=True)
+    if proofs["failures"]:
+        ctx.violation("proof obligations no longer check: " + "; ".join(proofs["failures"])[:400],
+                      {"broken": "props/%s.v" % ctx.prop, "failures": proofs["failures"]}, no_input=True)
+    if not [f for f in real if f.get("kind") != "advice"]:
         # No wrong claim was found by the oracle (ordinary exploration and, if anything broke, the escalated search at
         # every pass budget 0..40). Three different situations are told apart in the report:
         #  (a) a verified validator rejects the implementation's output (the soundness theorem no longer applies to it);
@@ -606,39 +853,10 @@ def verdict(ctx, proofs, r, kinds, known_classes, extra_cov=None):
                           "(per-budget equality is the correspondence the budget theorems are tied by), while Justify.vjust_cfg%s accept the implementation's output "
                           "on all %d graphs; %s" % (len(r["disagreements"]), " and DegJustify.djust_cfg" if r.get("check_degs") else "", r["validated"], searched),
                           {"broken": "correspondence propagate (Model.Propagate.propagate)", "status": "mirror differs, validator still accepts, no wrong claim found", "first": d}, no_input=True)
-        elif r.get("hyp_bad"):
-            ctx.violation("a graph handed to propagation does not meet the hypotheses of the budget / degree theorems (%s; %d cases)" % (r["hyp_bad"][0]["answer"], len(r["hyp_bad"])),
-                          {"broken": "hypotheses clean_cfg / ldefs_unique / deg_wf of C20_mirror_validated_at_every_budget, C20_propagate_completes and the degree theorems", "first": r["hyp_bad"][0]}, no_input=True)
-        elif r.get("dgraph_bad"):
-            d = r["dgraph_bad"][0]
-            if "(loops-hyp " in d["answer"]:
-                w = [y for y in d["answer"].split("(loops-hyp ", 1)[1].rstrip(")").split() if y != "update-base-assigned"][0]
-                what = {"no-version-maps": "SsaCheck.compute_infos gives no version maps for the graph and the implementation's dominator table (a C14-type finding: the SSA validator "
-                                           "cannot even be run; reported here because the degree theorem for graphs with loops needs the maps)",
-                        "infos-not-ok": "SsaCheck.infos_ok fails on the version maps of the graph (a C14-type finding: the SSA graph is not valid; reported here because it is a "
-                                        "hypothesis of C07_loops_runs_represented)",
-                        "targets-not-versioned": "DegLoops.targets_versioned: a statement assigns a local without a version (a C14-type finding)",
-                        "update-base-assigned": "DegLoops.update_bases_fresh: the array read by the first element-wise update of a never-assigned array is assigned by a statement",
-                        "future-version": "DegLoops.no_future_version: the version current at the exit of a block is one that a block with a larger index assigns (a C14-type finding: "
-                                          "the renaming does not follow the dominator tree / dominators do not have smaller indices; reported under %s because it is a hypothesis of "
-                                          "the degree theorem for graphs with loops)" % ctx.prop,
-                        "loops_ok-false": "DegLoops.loops_ok is false although its conjuncts hold one by one (driver and definition out of step)"}.get(w, w)
-                ctx.violation("a graph produced by the implementation does not meet a hypothesis of C07_loops_runs_represented / C07_loops_runs_claims_true (diverging runs in graphs "
-                              "with loops): %s (%d cases in all: %s)" % (what, len(r["dgraph_bad"]), r.get("dgraph", {}).get("unmet_conjuncts_of_the_loops_theorem")),
-                              {"broken": "hypothesis `%s` of C07_loops_runs_represented (SsaCheck.infos_ok / DegLoops.loops_ok)" % w, "first": d}, no_input=True)
-            else:
-                ctx.violation("a graph / immediate-dominator table produced by the implementation does not meet the hypotheses of the table-free degree theorems: %s (%d cases; "
-                              "`(graph-inconsistent)`: b_index is not the position or b_preds is not the inverse of b_succs or a block is unreachable - a matter of C12; "
-                              "`(idom-not-the-dominator-table)`: the table differs from the one Model.Dom computes - a matter of C15; `(local-assigned-twice)`: C14)" % (d["answer"], len(r["dgraph_bad"])),
-                              {"broken": "hypotheses DegGraph.graph_consistent / DegGraph.idom_is_dominator_table of C07_decides_is_dominance_control_dependence and "
-                                         "C07_validated_graph_degrees_true_table_free", "first": d}, no_input=True)
         elif r.get("cc_missing") and "finding" in kinds:
             d = r["cc_missing"][0]
             ctx.violation("correspondence Model.ConstCond vs constant_conditional.rs broken: %d reports the mirror expects are not produced" % len(r["cc_missing"]),
                           {"broken": "correspondence constant-conditional pass (Model.ConstCond.cc_findings)", "first": d}, no_input=True)
-        elif proofs["failures"]:
-            ctx.violation("proof obligations no longer check: " + "; ".join(proofs["failures"])[:400],
-                          {"broken": "props/%s.v" % ctx.prop, "failures": proofs["failures"]}, no_input=True)
     # every program feature the rule text names must have been produced (and lifted) in this run
     feats = r.get("features", {})
     need = list(FEATURES)
@@ -648,6 +866,24 @@ def verdict(ctx, proofs, r, kinds, known_classes, extra_cov=None):
         for f in ("lines_with_signal_dependent_trip_counts", "claims_judged_on_signal_dependent_paths", "component_port_reads_as_indeterminates"):
             if not ds.get(f):
                 missing.append(f)
+    # the RANDOM grammar alone (not the fixed shapes, the corpus or the hand-shaped families) must keep producing these
+    fr = r.get("features_random", {})
+    nrand = r.get("random_programs", 0)
+    decayed = [f for f in GRAMMAR_FEATURES + (GRAMMAR_FEATURES_RARE if nrand >= 500 else []) if not fr.get(f)] if nrand >= 150 else []
+    if decayed:
+        ctx.violation("degenerate exploration: the random grammar (%d programs, fixed shapes not counted) never produced: %s" % (nrand, ", ".join(decayed)),
+                      {"broken": "generator coverage (random grammar of lib/proggen.py)", "missing": decayed, "counted": fr}, no_input=True)
+    st = r["status"]
+    tot = sum(st.values()) or 1
+    rate = {k: round(st.get(k, 0) / tot, 3) for k in ("ssaerr", "cfgerr", "parseerr", "sugarerr")}
+    if rate["ssaerr"] > 0.2 or rate["cfgerr"] + rate["parseerr"] + rate["sugarerr"] > 0.05:
+        ctx.violation("degenerate exploration: too many generated definitions are not analysed at all (rates %s; thresholds: ssaerr 20 %%, cfgerr + parseerr + sugarerr 5 %%)" % rate,
+                      {"broken": "generator (share of definitions the implementation rejects)", "status": st}, no_input=True)
+    cuts = [x for x in (r.get("valstats", {}), ds) if x.get("runs")]
+    cutrate = max([x.get("runs_cut_by_the_step_limit", 0) / x["runs"] for x in cuts] or [0])
+    if cutrate > 0.15:
+        ctx.violation("degenerate exploration: %.1f %% of the interpreter runs were cut by the step limit (threshold 15 %%)" % (100 * cutrate),
+                      {"broken": "oracle (share of runs cut by the step limit)", "valstats": r.get("valstats"), "degstats": ds}, no_input=True)
     if missing:
         ctx.violation("degenerate exploration: features named in the rule text were never produced in this run: %s" % ", ".join(missing),
                       {"broken": "generator coverage (lib/proggen.py)", "missing": missing, "counted": feats, "oracle": ds}, no_input=True)
@@ -673,11 +909,18 @@ def verdict(ctx, proofs, r, kinds, known_classes, extra_cov=None):
         "graphs_rejected_by_djust_cfg_and_the_weaker_djust_cfg_le": r.get("weak"),
         "graphs_with_array_forms_among_them": r["darrays"],
         "disagreements_model_vs_impl": len(r["disagreements"]),
+        "definitions_not_given_to_the_mirror_because_they_need_thousands_of_passes": r.get("not_mirrored", 0),
         "input_origins": r["origins"],
         "features_produced": {f: feats.get(f, 0) for f in FEATURES},
+        "features_produced_by_the_random_grammar_alone": dict({f: fr.get(f, 0) for f in FEATURES}, programs=nrand, guarded=GRAMMAR_FEATURES + (GRAMMAR_FEATURES_RARE if nrand >= 500 else [])),
+        "share_of_definitions_not_analysed": rate,
+        "hypothesis_ssa_check_on_the_graphs_of_this_run": r.get("ssa"),
         "harness_processes_that_died_on_a_line": ABORTS["lines"],
         "interpreter_runs_for_value_claims": r.get("valstats", {}),
     }
+    if r.get("check_advice"):
+        cov["consumers_of_partial_facts_run_at_every_budget"] = dict(r.get("advice", {}), rule="CS0013 / CS0010 of the real passes on the graph as the budgets left it; every CS0013 must "
+                                                                     "stand on a `<--` whose right-hand side carries a degree claim <= quadratic and is of Circom's constraint form; CS0010 is counted only")
     if r.get("check_degs"):
         cov["degree_oracle"] = dict(ds, rule="a line = five valuations base + t*direction; a claim `degree <= d` on a node is judged per iteration context (the loops the run is in "
                                     "with their iteration numbers; behind a loop all runs are compared again) on the runs that reach it there, by divided differences of order d + 1; on lines whose trip "
@@ -694,10 +937,9 @@ def verdict(ctx, proofs, r, kinds, known_classes, extra_cov=None):
                                                                            "hypothesis `edge lists of the lifted skeleton` is compared by the liftfull engine (C13), not here; "
                                                                            "SsaCheck.infos_ok (on compute_infos of the graph and the real table) and the four conjuncts of "
                                                                            "DegLoops.loops_ok (single_assignment_b, targets_versioned, update_bases_fresh, no_future_version) are the "
-                                                                           "graph hypotheses of C07_loops_runs_represented / C07_loops_runs_claims_true (diverging runs in graphs WITH "
-                                                                           "loops, same loop-header entries): graphs_covered_by_loops_theorem; an unmet one is a violation naming it, except update_bases_fresh alone: as "
-                                                                           "defined it is false for every graph that updates one array element-wise twice (the base of the second update "
-                                                                           "is assigned by the first), which is no defect of the graph: counted as outside the theorem")
+                                                                           "graph-side hypotheses of C07_loops_runs_represented / C07_loops_runs_claims_true (diverging runs in graphs WITH "
+                                                                           "loops, same loop-header entries); its family assumption picks_decided_sched is NOT evaluated on any case, so this "
+                                                                           "is not coverage by the theorem: graphs_meeting_the_graph_hypotheses_of_the_loops_theorem; an unmet one is a violation naming it")
     if r.get("escalated"):
         cov["escalated_search_after_broken_correspondence"] = r["escalated"]
     if "degree" in kinds:
@@ -726,7 +968,7 @@ def replay(ctx, rep):
         return 1
     H = common.build_harness("ir")
     kv, kd = rep.get("budget", ["-", "-"])
-    out = common.run_lines(H, [], ["%s %s %s %s" % (rep.get("curve", "BN254"), kv, kd, rep["input"].encode().hex())])[0]
+    out = common.run_lines(H, [], ["%s %s %s %s" % (rep.get("curve", "BN254"), kv, kd, wire(rep["input"]))])[0]
     print(out[:2000])
     x = sexp.parse(out)
     if x[0] != "ok":
